@@ -441,6 +441,15 @@ func (r *runner) state() int64 {
 	return -1
 }
 
+// satAdd adds without wrapping: deadlines beyond the year 2262 do not fit int64 nanoseconds (time.Time holds them)
+func satAdd(a, b int64) int64 {
+	c := a + b
+	if b > 0 && c < a {
+		return 1<<63 - 1
+	}
+	return c
+}
+
 func isPow2(x int64) bool { return x > 0 && x&(x-1) == 0 }
 
 var twoM40 = new(big.Rat).SetFrac(big.NewInt(1), new(big.Int).Lsh(big.NewInt(1), 40))
@@ -454,11 +463,15 @@ func (c *cbComp) Run(h *hlib.History) ([]hlib.Mon, bool) {
 	if !ok || len(rest) != 0 || t0 <= 0 {
 		return nil, false
 	}
+	total := t0
 	for _, op := range h.Ops { // validate before touching anything
 		switch {
 		case len(op) == 2 && op[0] == 0:
 		case len(op) >= 4 && op[0] == 1 && op[1] >= 0 && op[2] >= 100 && op[2] <= 999:
 		case len(op) == 2 && op[0] == 2 && op[1] >= 0:
+			if total = satAdd(total, op[1]); total > 9000000000*second {
+				return nil, false
+			}
 		case len(op) == 1 && op[0] == 3:
 		case len(op) == 2 && op[0] == 4 && op[1] >= 1 && op[1] <= 64:
 		default:
@@ -519,12 +532,13 @@ func (c *cbComp) Run(h *hlib.History) ([]hlib.Mon, bool) {
 		mon("C05", -1, "a new breaker is in state %d", prev)
 	}
 	shieldOn, shieldEnd := false, int64(0) // C05: [trip, trip+fallback)
-	inRec, recStart := false, int64(0)     // C12: current recovery period
-	var recA, recN int64                   // passed / total arrivals since recovery began
-	var log []rec                          // C18: records since the last observed trip
-	maxLat := int64(-1)                    // C18: largest latency (ns) recorded since the last observed trip, -1 = none
-	checked, nextCheck := false, int64(0)  // C18: a check was performed; no further check up to and including nextCheck
-	var expT, expS int64                   // C18: transitions into tripped / standby observed so far
+	tripAt := int64(0)
+	inRec, recStart := false, int64(0)    // C12: current recovery period
+	var recA, recN int64                  // passed / total arrivals since recovery began
+	var log []rec                         // C18: records since the last observed trip
+	maxLat := int64(-1)                   // C18: largest latency (ns) recorded since the last observed trip, -1 = none
+	checked, nextCheck := false, int64(0) // C18: a check was performed; no further check up to and including nextCheck
+	var expT, expS int64                  // C18: transitions into tripped / standby observed so far
 	dyadic := isPow2(recD)
 
 	for step := range h.Ops {
@@ -569,7 +583,7 @@ func (c *cbComp) Run(h *hlib.History) ([]hlib.Mon, bool) {
 
 			// C05: shielded while tripped; standby passes everything; transition relation
 			if shieldOn && now < shieldEnd && pass {
-				mon("C05", step, "request passed to the handler %d ns after the trip, fallback duration %d ns", now-(shieldEnd-fb), fb)
+				mon("C05", step, "request passed to the handler %d ns after the trip, fallback duration %d ns", now-tripAt, fb)
 			}
 			if prev == stStandby && (!pass || cur != stStandby) {
 				mon("C05", step, "arrival in standby: pass=%v, state afterwards %d", pass, cur)
@@ -591,7 +605,7 @@ func (c *cbComp) Run(h *hlib.History) ([]hlib.Mon, bool) {
 				}
 			}
 			if prev == stRecovering && inRec {
-				if now > recStart+recD {
+				if now > satAdd(recStart, recD) {
 					// the first request after the recovery period finds the breaker in standby, passing
 					if !pass || cur != stStandby {
 						mon("C12", step, "first request %d ns after the recovery period: pass=%v state=%d", now-recStart-recD, pass, cur)
@@ -732,7 +746,7 @@ func (c *cbComp) Run(h *hlib.History) ([]hlib.Mon, bool) {
 					shadow = fresh
 				}
 				shadow.Reset()
-				shieldOn, shieldEnd = true, now+fb
+				shieldOn, shieldEnd, tripAt = true, satAdd(now, fb), now
 				inRec = false
 			}
 			if nT != expT || nS != expS {
@@ -762,7 +776,7 @@ func (c *cbComp) Run(h *hlib.History) ([]hlib.Mon, bool) {
 			if shielded {
 				hlib.Count("bursts_inside_fallback_period", 1)
 				if passed != 0 {
-					mon("C05", step, "%d requests arriving together %d ns after the trip (fallback duration %d ns): %d reached the protected handler", k, now-(shieldEnd-fb), fb, passed)
+					mon("C05", step, "%d requests arriving together %d ns after the trip (fallback duration %d ns): %d reached the protected handler", k, now-tripAt, fb, passed)
 				}
 			} else if passed != k {
 				mon("C05", step, "%d requests arriving together in standby: only %d passed on", k, passed)
@@ -975,6 +989,9 @@ func (c *cbComp) Gen(rng *rand.Rand, idx int, tier string, targeted bool) hlib.H
 		t0 -= t0 % second
 	}
 	fb := hlib.Pick(rng, 0, 1000000, 50000000, second, 3*second, 10*second, 10*second, 15*second, 3600*second)
+	if rng.Intn(25) == 0 {
+		fb = 8000000000 * second // "latched": the deadline lies beyond the year 2262, which int64 nanoseconds cannot hold
+	}
 	var recD int64
 	if rng.Intn(2) == 0 || targeted {
 		recD = int64(1) << uint(hlib.Pick(rng, 20, 27, 30, 30, 33, 33, 34, 36, 42))
@@ -1022,7 +1039,12 @@ func (c *cbComp) Gen(rng *rand.Rand, idx int, tier string, targeted bool) hlib.H
 	arrive := func() { h.Ops = append(h.Ops, []int64{0, 2}) }
 	together := func() { h.Ops = append(h.Ops, []int64{4, int64(2 + rng.Intn(23))}) }
 	complete := func() { h.Ops = append(h.Ops, []int64{1, int64(rng.Intn(8)), code(), 2}) }
-	tick := func(d int64) { h.Ops = append(h.Ops, []int64{2, d}) }
+	tick := func(d int64) {
+		if d > 1000000*second { // keep the harness's own int64 clock far from its end
+			d = 1000000 * second
+		}
+		h.Ops = append(h.Ops, []int64{2, d})
+	}
 
 	nops := 30 + rng.Intn(90)
 	if tier == "thorough" {
